@@ -259,9 +259,12 @@ def main():
     def run_job(j):
         path = os.path.join(rundir, "job_%s.script" % hashlib.sha1((repr(j.L) + repr(j.K) + j.tag).encode()).hexdigest()[:12])
         with open(path, "w") as f:
-            f.write(gen.header_text(j.L, j.K, j.statics))
-            for sid, lines, _ in j.scripts:
-                f.write("BEGIN %s\n%s\nEND\n" % (sid, "\n".join(lines)))
+            if getattr(j, "raw_file", None) is not None:
+                f.write(j.raw_file)
+            else:
+                f.write(gen.header_text(j.L, j.K, j.statics))
+                for sid, lines, _ in j.scripts:
+                    f.write("BEGIN %s\n%s\nEND\n" % (sid, "\n".join(lines)))
         return (j,) + run_pair(j.exe, path)
 
     tr = time.time()
@@ -300,7 +303,13 @@ def main():
             d = first_diff(il, ml)
             if d is not None:
                 stats["disagreements"] += 1
-            if ov or d is not None:
+            if (ov or d is not None) and getattr(j, "lists", None):
+                # static sweep: the replay is an ordinary unit of that list with the same static lines
+                Lx = j.lists[sid]
+                violations.append({"kind": "static-layout-disagrees", "L": Lx, "K": j.K,
+                                   "detail": "impl: %s | model: %s" % (d[1], d[2]) if d is not None else ov[0],
+                                   "script": [], "header": gen.header_text(Lx, j.K, lines)})
+            elif ov or d is not None:
                 violations.append({"kind": "oracle" if ov else "correspondence", "L": j.L, "K": j.K,
                                    "detail": (ov[0] if ov else "impl: %s | model: %s (line %d)" % (d[1], d[2], d[0])),
                                    "oracle": ov, "script": lines, "sid": sid, "job": j,
